@@ -5,6 +5,7 @@ import (
 	"go/constant"
 	"go/token"
 	"go/types"
+	"regexp"
 	"strings"
 
 	"golang.org/x/tools/go/ssa"
@@ -91,6 +92,8 @@ func sizeErrType(v pred.Val) string {
 	return v.String()
 }
 
+var roundTripRe = regexp.MustCompile(`^conv\[[A-Za-z0-9_.]+\]\(conv\[uint64\]\(value\)\)$`)
+
 // ruleC08NewSize: decision table of size.newSize.
 func ruleC08NewSize(e *Env) {
 	const rule = "C08.ovf"
@@ -98,6 +101,8 @@ func ruleC08NewSize(e *Env) {
 	if fn == nil {
 		return
 	}
+	// the exported constructor is newSize with its error wrapped
+	ruleErrWrapper(e, rule, e.Fn(rule, "size", "New"), fn, []string{"value", "unit"}, "0")
 	site := flow.FnName(fn)
 	const (
 		kZero   = "value?0"
@@ -123,9 +128,9 @@ func ruleC08NewSize(e *Env) {
 			return as, true
 		case as == kZUval && bs == "true":
 			return kZU, true // the set spelled map[string]bool: the looked-up value is the membership (C08.tab reads it so)
-		case strings.HasPrefix(as, "conv[") && strings.Contains(as, "value") && bs == "value":
-			return kRound, true
-		case bs == "value" && strings.HasPrefix(as, "conv["):
+		case bs == "value" && roundTripRe.MatchString(as):
+			// N(uint64(value)) against value: through uint64 and no other type — int64 loses [2^63, 2^64), a
+			// narrower type wraps
 			return kRound, true
 		case strings.HasPrefix(as, mulTerm+"#0(") && bs == "0":
 			return kHi, true
@@ -133,8 +138,13 @@ func ruleC08NewSize(e *Env) {
 		return "", false
 	}
 	domain := func(k string) []int {
+		// the numeric kinds include the floating-point ones: NaN is neither below, equal to nor above zero, and
+		// unequal to (and unordered with) whatever it is converted to
 		if k == kZero {
-			return []int{-1, 0, 1}
+			return []int{-1, 0, 1, pred.Unordered}
+		}
+		if k == kRound {
+			return []int{0, 1, pred.Unordered}
 		}
 		return []int{0, 1}
 	}
@@ -142,7 +152,15 @@ func ruleC08NewSize(e *Env) {
 	pruneUnit := func(assign map[string]int) bool { // a unit cannot be both "" and "B"
 		a, okA := assign[kEmpty]
 		b, okB := assign[kByte]
-		return !(okA && okB && a == 0 && b == 0)
+		if okA && okB && a == 0 && b == 0 {
+			return false
+		}
+		z, okZ := assign[kZero]
+		r, okR := assign[kRound]
+		if okZ && okR && (z == pred.Unordered) != (r == pred.Unordered) { // NaN is unordered in both tests or in neither
+			return false
+		}
+		return true
 	}
 	leaves, err := extractTree(e.P.SSA, fn, e.Permuted("size", "newSize", fn, mk), nil, nil, keyOf, domain, pruneUnit)
 	if err != nil {
@@ -182,6 +200,8 @@ func ruleC08NewSize(e *Env) {
 				want = "0 / InvalidUnitError"
 			}
 		case val < 0:
+			want = "0 / InvalidValueError"
+		case val == pred.Unordered: // NaN
 			want = "0 / InvalidValueError"
 		default: // value > 0
 			rt := get(kRound) // 1: conv(uint64(value)) == value
